@@ -237,3 +237,98 @@ impl Prop for C07Prefix {
         }
     }
 }
+
+/// Metamorphic part: a call cut by the clock is indistinguishable from a call cut by an iteration
+/// count. "Wall-clock time may only affect how many iterations complete, never which decisions
+/// are taken."
+pub struct C07Timed;
+impl Prop for C07Timed {
+    type Case = PlanCase;
+    const ID: &'static str = "C07";
+    const PART: &'static str = "timed-equals-budget";
+    const RULE: &'static str = "run X: setup, solve under a real 0.1-3 ms wall-clock timeout (PRM: construct_roadmap with that build time), then solve(budget m) on the same instance; the hook reports how many iterations k the timed call started. Run Y: the same with the timed call replaced by solve(budget k) (construct_roadmap(budget k)). Results and tree / roadmap snapshots (states, parents, costs, adjacency) of X and Y must be identical bit for bit after both calls. Non-trivial = the timed call ended by timeout after >= 5 iterations.";
+    fn random_cases(tier: Tier) -> usize {
+        tier.pick(4_000, 30_000)
+    }
+    fn gen(ch: &mut Ch, _tier: Tier) -> PlanCase {
+        let prof = Profile {
+            rng_goal: 0.5,
+            max_obst: 3,
+            budget_scale: 0.3,
+            big_radius: true,
+            ..Default::default()
+        };
+        let mut c = gen_plan_case(ch, &prof);
+        if ch.prob(0.7) {
+            c.problems[0].goal.radius *= 0.05;
+        }
+        let us = ch.int(100, 3000) as u64;
+        let m = ch.int(5, 200) as u64;
+        c.ops = if c.planner == PlannerTag::PRM {
+            vec![Op::Setup(0), Op::ConstructTimed { us }, Op::Solve { budget: m }]
+        } else {
+            vec![Op::Setup(0), Op::SolveTimed { us }, Op::Solve { budget: m }]
+        };
+        c.query_cap = usize::MAX;
+        c
+    }
+    fn check(case: &PlanCase, ctx: &mut Ctx) {
+        let pname = planner_name(case.planner);
+        let Ok(tx) = run_case_dyn(case) else {
+            ctx.discard("unbuildable");
+            return;
+        };
+        common_labels(case, &tx, ctx);
+        if tx.steps.iter().any(|s| matches!(s.res, Res::Panic { .. })) {
+            ctx.panicked = true;
+            return;
+        }
+        let k = tx.steps[1].ticks;
+        let mut y = case.clone();
+        y.ops[1] = if case.planner == PlannerTag::PRM {
+            Op::Construct { budget: k }
+        } else {
+            Op::Solve { budget: k }
+        };
+        let Ok(ty) = run_case_dyn(&y) else {
+            ctx.discard("unbuildable");
+            return;
+        };
+        if ty.steps.iter().any(|s| matches!(s.res, Res::Panic { .. })) {
+            ctx.panicked = true;
+            return;
+        }
+        for (i, (a, b)) in tx.steps.iter().zip(&ty.steps).enumerate() {
+            let what = match i {
+                1 => "timed-call",
+                2 => "call-after-timed-call",
+                _ => "setup",
+            };
+            if !a.res.same(&b.res) {
+                ctx.fail(
+                    format!("C07:timed-differs-from-budget:{pname}:{what}:result"),
+                    format!(
+                        "the timed call started {k} iterations; step {i}: after the timed run {}, after the run cut at {k} iterations {}",
+                        describe(&a.res),
+                        describe(&b.res)
+                    ),
+                );
+                return;
+            }
+            if !a.snap.bits_eq(&b.snap) {
+                ctx.fail(
+                    format!("C07:timed-differs-from-budget:{pname}:{what}:snapshot"),
+                    format!(
+                        "the timed call started {k} iterations; step {i}: tree / roadmap after the timed run ({} nodes) differs from the one after the run cut at {k} iterations ({} nodes)",
+                        a.snap.size(),
+                        b.snap.size()
+                    ),
+                );
+                return;
+            }
+        }
+        let timed_out = matches!(&tx.steps[1].res, Res::Err(e) if e == "Timeout") || (case.planner == PlannerTag::PRM);
+        ctx.label(format!("timed-call:{}", tx.steps[1].res.tag()));
+        ctx.nontrivial = timed_out && k >= 5;
+    }
+}
